@@ -2,6 +2,7 @@ package content
 
 import (
 	"html/template"
+	"reflect"
 
 	"github.com/gobuffalo/plush/v5/helpers/hctx"
 )
@@ -24,8 +25,21 @@ func ContentFor(name string, help hctx.HelperContext) {
 
 	// contentOf runs the block itself when it can, so that a break or
 	// continue in the block reaches the loop around the contentOf call
-	help.Set("contentFor:"+name+":block", help)
-	help.Set("contentFor:"+name, func(data hctx.Map) (template.HTML, error) {
+	help.Set(blockKey+name, help)
+	help.Set("contentFor:"+name, replay(help))
+}
+
+// blockKey is where the helper context of a contentFor call is kept, next to
+// the function stored under "contentFor:<name>" (no name given to contentFor
+// makes the two keys collide).
+const blockKey = "contentForBlock:"
+
+// replay is what contentFor stores: a function that renders the block.
+// (Not inlined: all functions it makes share one body, see replayCode.)
+//
+//go:noinline
+func replay(help hctx.HelperContext) func(data hctx.Map) (template.HTML, error) {
+	return func(data hctx.Map) (template.HTML, error) {
 		hctx := help.New()
 		for k, v := range data {
 			hctx.Set(k, v)
@@ -35,5 +49,9 @@ func ContentFor(name string, help hctx.HelperContext) {
 			return "", err
 		}
 		return template.HTML(body), nil
-	})
+	}
 }
+
+// replayCode identifies the functions made by replay: a function somebody
+// else has stored under "contentFor:<name>" is theirs to be called.
+var replayCode = reflect.ValueOf(replay(nil)).Pointer()
